@@ -51,10 +51,20 @@ type RecBucket struct {
 	CrashAt    int // -1 = never
 	FailAt     int // -1 = never
 	CountReads bool
-	crashed    bool
-	crashedCh  chan struct{}
-	release    chan struct{}
-	released   bool
+	// BeforeOp, when set, runs before every counted operation with the index it is about to get
+	// (two-actor histories: the other actor's operations are performed here).
+	BeforeOp func(idx int)
+	// Permit/Stepped, when set, make every mutating operation wait for a token on Permit and
+	// announce its completion on Stepped (buffered): the actor behind this bucket is single-stepped.
+	Permit  chan struct{}
+	Stepped chan struct{}
+	// LexIter makes Iter hand out the entries in plain lexicographic order (as S3, GCS, Azure
+	// list them: "chunks/" before "index"); the in-memory bucket lists files before directories.
+	LexIter   bool
+	crashed   bool
+	crashedCh chan struct{}
+	release   chan struct{}
+	released  bool
 }
 
 func NewRecBucket(inner *objstore.InMemBucket) *RecBucket {
@@ -114,6 +124,15 @@ func (b *RecBucket) Snapshot() map[string][]byte { return b.inner.Objects() }
 // gate decides what happens to the next operation: 0 proceed, 1 injected error; it
 // blocks (and then returns 2) when the process is crashed.
 func (b *RecBucket) gate(mut bool) int {
+	if b.BeforeOp != nil && (mut || b.CountReads) {
+		b.mu.Lock()
+		idx := b.n
+		b.mu.Unlock()
+		b.BeforeOp(idx)
+	}
+	if mut && b.Permit != nil {
+		<-b.Permit
+	}
 	b.mu.Lock()
 	if b.crashed {
 		rel := b.release
@@ -146,6 +165,9 @@ func (b *RecBucket) record(o Op) {
 		o.Snap = b.inner.Objects()
 	}
 	b.ops = append(b.ops, o)
+	if o.Mut && b.Stepped != nil {
+		b.Stepped <- struct{}{}
+	}
 }
 
 func (b *RecBucket) Upload(ctx context.Context, name string, r io.Reader, opts ...objstore.ObjectUploadOption) error {
@@ -281,6 +303,9 @@ func (b *RecBucket) Iter(ctx context.Context, dir string, f func(string) error, 
 	b.mu.Unlock()
 	if err != nil {
 		return err
+	}
+	if b.LexIter {
+		sort.Strings(names)
 	}
 	for _, n := range names {
 		if err := f(n); err != nil {
